@@ -99,7 +99,7 @@ fn scenario(pr: &Params) -> Verdict {
     let n = pr.hists.len();
     let conns: Vec<e3::RawConn> = (0..n).map(|p| e3::raw_conn(&format!("S{}", p))).collect();
     for (p, c) in conns.iter().enumerate() {
-        c.send(&rc::handshake("SUB", Some(format!("S{}", p).as_bytes())));
+        c.send(&rc::handshake(ty.peer_type(), Some(format!("S{}", p).as_bytes())));
         for &op in &pr.hists[p] {
             c.send(&rc::encode_message(&op_message(op)));
         }
@@ -531,6 +531,13 @@ pub fn run(tier: Tier, replay: Option<String>) -> i32 {
             // schedules matter little for sequential matching logic: default + every single deviation for short histories
             let bound = if h.len() <= 2 { 1 } else { 0 };
             jobs.push(e3::job(format!("C11/{}/1/{:?}", ty.name(), h), pj(&pr), bound, 20_000, move || scenario(&pr2)));
+            // the same history from a peer that announces itself as XSUB
+            if h.len() <= 3 {
+                let pr2 = pr.clone();
+                let mut p = pj(&pr);
+                p["peer_variant"] = json!(1);
+                jobs.push(e3::job(format!("C11/{}/1/{:?}/xsub", ty.name(), h), p, 0, 20_000, move || scenario(&pr2)));
+            }
         }
         for a in &pairs {
             for b in &pairs {
